@@ -12,7 +12,7 @@ Model/C06HeapOps.lean (`names`, `size`, `getList`, `last`, `first`, `deref`, `se
 
 Translation rules (compositional; anything else raises TranslateError => tie broken):
   self / other                      a `SimulationResults` address `s` / `o`
-  X._results, X[key], len(X), X.get_result_names(), X._results.keys(), `key in …`
+  X._results, X[key], len(X), X.get_result_names(), X._results.keys(), list(X._results), `key in …`
                                     `getList` / `size` / `names` / membership in `names`
                                     (`__getitem__`, `__len__`, `get_result_names` are inlined, they must
                                     be single `return` methods)
@@ -26,7 +26,12 @@ Translation rules (compositional; anything else raises TranslateError => tie bro
   D[key] = [copy.deepcopy(v) for v in L]      `copyElems` (new objects, left to right) + `setEntryNewList`
   L.append(r)                       `listAppend`
   for v in <names>: body            a recursive function over the list of names, which is computed once
-                                    before the loop (no break / continue / return inside)
+                                    before the loop (no break / continue / return inside); a loop directly over a
+                                    dictionary / its keys only if the body stores into no dictionary
+  [x for x in <names> if c(x)]      the same names with a filter that may only compare the name with literals;
+                                    `for x in [y for y in L if c(y)]: B` is emitted as `for x in L: if c(x): B`
+  b = <test>                        the test as evaluated on the machine of that moment, used by later `if b`
+  if … (closed: no `return`, no local of it used afterwards)   a statement of its own, sequenced with what follows
   if / else, raise E(…), local assignments, calls of other methods of the class through self (inlined)
 Convention: a method taking another result set starts by checking that both addresses are valid
 (`AttributeError` otherwise, as in the hand model; it cannot happen in Python).
@@ -34,6 +39,7 @@ Not translated: `append_all_results` (its loops run over list objects that the b
 model treats that with a fuel / self-feeding test), `combine_simulation_results`, the parameter objects.
 """
 import ast
+import copy
 import os
 
 from harness.translate import HEADER, TranslateError, parse_file, strip_doc
@@ -85,6 +91,7 @@ class Gen:
         self.cls, self.rcls, self.codes, self.fname = cls, rcls, codes, fname
         self.n = 0
         self.loops = 0
+        self.dict_writes = 0
         self.ifs = 0
         self.aux = []
         self.stack = []
@@ -181,7 +188,34 @@ class Gen:
             return self.call(e, cx, k)
         if isinstance(e, ast.List):
             return self.ev_list(e.elts, [], cx, lambda vs: k(SV('display', py=vs)))
+        if isinstance(e, ast.ListComp):
+            return self.names_comprehension(e, cx, k)
         fail('unsupported expression %s' % ast.unparse(e)[:70], e)
+
+    def names_comprehension(self, e, cx, k):
+        """[x for x in <names> if <test on x>]: the same list of names with a filter; the filter may only compare
+        the name with literals (it is evaluated again, per element, by the loop that runs over the list)"""
+        g = e.generators
+        if len(g) != 1 or g[0].is_async or not isinstance(g[0].target, ast.Name) \
+                or not isinstance(e.elt, ast.Name) or e.elt.id != g[0].target.id:
+            fail('unsupported list comprehension %s' % ast.unparse(e)[:70], e)
+        var = g[0].target.id
+
+        def got(it):
+            if it.kind in ('dict', 'keys'):
+                it = SV('names', 'Ops.names %s %s' % (cx.m, it.tx))
+            if it.kind != 'names':
+                fail('comprehension over %s (only over a list of result names)' % it.kind, e)
+            filt = list(it.py or [])
+            for t in g[0].ifs:
+                # pure: it must translate with the element as its only name and without touching the machine
+                probe = Cx({var: SV('name', var)}, '‹machine›', None)
+                txt = self.cond(t, probe, lambda c: c)
+                if '‹machine›' in txt:
+                    fail('filter of a comprehension reads the result set: %s' % ast.unparse(t), t)
+                filt.append((var, t))
+            return k(SV('names', it.tx, py=filt))
+        return self.ev(g[0].iter, cx, got)
 
     def ev_list(self, es, acc, cx, k):
         if not es:
@@ -271,8 +305,10 @@ class Gen:
                     if v.kind == 'dict':
                         return k(SV('int', 'Ops.size %s %s' % (cx.m, v.tx)))
                     fail('len() of %s' % v.kind, e)
-                if v.kind == 'keys':
+                if v.kind in ('keys', 'dict'):          # list(d) = list(d.keys()): the keys, in insertion order
                     return k(SV('names', 'Ops.names %s %s' % (cx.m, v.tx)))
+                if v.kind == 'names':
+                    return k(v)
                 fail('list() of %s' % v.kind, e)
             return self.ev(e.args[0], cx, got)
 
@@ -346,6 +382,8 @@ class Gen:
     def cond(self, e, cx, k):
         if isinstance(e, ast.UnaryOp) and isinstance(e.op, ast.Not):
             return self.cond(e.operand, cx, lambda c: k('¬ (%s)' % c))
+        if isinstance(e, ast.Name) and e.id in cx.env and cx.env[e.id].kind == 'prop':
+            return k(cx.env[e.id].tx)
         if isinstance(e, ast.Compare) and len(e.ops) == 1:
             op = e.ops[0]
 
@@ -364,6 +402,8 @@ class Gen:
                     return k(c if isinstance(op, ast.Eq) else '¬ (%s)' % c)
                 if isinstance(op, (ast.In, ast.NotIn)) and l.kind == 'name':
                     if r.kind == 'names':
+                        if r.py:
+                            fail('membership in a filtered list of names', e)
                         c = '%s ∈ %s' % (l.tx, r.tx)
                     elif r.kind in ('keys', 'dict'):
                         c = '%s ∈ Ops.names %s %s' % (l.tx, cx.m, r.tx)
@@ -382,25 +422,11 @@ class Gen:
         if isinstance(s, ast.If) and not sole and self.closed(s, rest):
             # an `if` none of whose local bindings is used afterwards and which does not `return`: it is a
             # statement of its own (machine -> machine, exception), what follows is not duplicated per branch
-            locs = {n.id for n in ast.walk(s) if isinstance(n, ast.Name) and n.id in cx.env
-                    and cx.env[n.id].kind != 'sim'}
-            inner = None
-            if not locs:
-                # … and it mentions no local name at all: emitted as a definition of its own
-                self.ifs += 1
-                name = '%s_if%d' % (self.fname, self.ifs)
-                sims = sorted({v.tx for v in cx.env.values() if v.kind == 'sim'}, reverse=True)
-                body = self.stmt(s, Cx({k_: v for k_, v in cx.env.items() if v.kind == 'sim'}, 'm', None),
-                                 lambda cx2: '(%s, none)' % cx2.m)
-                self.aux.append('def %s (%s : Nat) (m : Mach) : Mach × Option PyErr :=\n%s\n'
-                                % (name, ' '.join(sims), indent(body)))
-                inner = '%s %s %s' % (name, ' '.join(sims), cx.m)
-            elif rest:
-                inner = self.stmt(s, cx, lambda cx2: '(%s, none)' % cx2.m)
-            if inner is not None:
-                m2 = self.fresh('m')
-                return mmatch(inner, [('(%s, some e)' % m2, '(%s, some e)' % m2),
-                                      ('(%s, none)' % m2, self.block(rest, cx.with_m(m2), k))])
+            # (also when nothing follows in this block: what follows the block — the rest of a caller — is `k`)
+            inner = self.stmt(s, cx, lambda cx2: '(%s, none)' % cx2.m)
+            m2 = self.fresh('m')
+            return mmatch(inner, [('(%s, some e)' % m2, '(%s, some e)' % m2),
+                                  ('(%s, none)' % m2, self.block(rest, cx.with_m(m2), k))])
         return self.stmt(s, cx, lambda cx2: self.block(rest, cx2, k))
 
     @staticmethod
@@ -445,6 +471,10 @@ class Gen:
                         fail('unsupported value bound to %s' % tgt.id, s)
                     cx.env[tgt.id] = v
                     return k(cx)
+                if isinstance(s.value, ast.Compare) or (
+                        isinstance(s.value, ast.UnaryOp) and isinstance(s.value.op, ast.Not)):
+                    # a test evaluated now (on the current machine) and used later
+                    return self.cond(s.value, cx, lambda c: bind(SV('prop', c)))
                 return self.ev(s.value, cx, bind)
             if isinstance(tgt, ast.Subscript):
                 return self.ev(tgt.value, cx, lambda d: self.ev(tgt.slice, cx, lambda key: self.store(d, key, s, cx, k)))
@@ -469,6 +499,7 @@ class Gen:
             def got(l):
                 if l.kind != 'list':
                     fail('comprehension over %s' % l.kind, s)
+                self.dict_writes += 1
                 m2, cs, m3 = self.fresh('m'), self.fresh('c'), self.fresh('m')
                 return ('(let (%s, %s) := copyElems %s (listAt %s %s)\nlet %s := Ops.setEntryNewList %s %s %s %s\n%s)'
                         % (m2, cs, cx.m, cx.m, l.tx, m3, m2, d.tx, par(key.tx), cs, k(cx.with_m(m3))))
@@ -476,6 +507,7 @@ class Gen:
         if isinstance(v, ast.List):
             def alloc(vals, refs, cx_):
                 if not vals:
+                    self.dict_writes += 1
                     m2 = self.fresh('m')
                     return '(let %s := Ops.setEntryNewList %s %s %s [%s]\n%s)' % (
                         m2, cx_.m, d.tx, par(key.tx), ', '.join(r.tx for r in refs), k(cx_.with_m(m2)))
@@ -491,8 +523,21 @@ class Gen:
                 fail('break / continue / return / nested loop inside a for loop', n)
 
         def got(it):
+            live = it.kind in ('dict', 'keys')
+            if live:
+                # iterating a dictionary = iterating its keys in insertion order; Python refuses a change of its size
+                # meanwhile, so the body must not store into any dictionary
+                it = SV('names', 'Ops.names %s %s' % (cx.m, it.tx))
             if it.kind != 'names':
                 fail('for loop over %s (only over a list of result names)' % it.kind, s)
+            body_stmts = s.body
+            for var, test in reversed(it.py or []):
+                # for x in [y for y in L if c(y)]: B   =   for x in L: if c(x): B
+                class Ren(ast.NodeTransformer):
+                    def visit_Name(self, n):
+                        return ast.copy_location(ast.Name(id=s.target.id, ctx=n.ctx), n) if n.id == var else n
+                body_stmts = [ast.copy_location(ast.If(test=Ren().visit(copy.deepcopy(test)), body=body_stmts, orelse=[]), s)]
+            writes0 = self.dict_writes
             self.loops += 1
             lname = '%s_loop%d' % (self.fname, self.loops)
             sims = [(name, v) for name, v in cx.env.items() if v.kind == 'sim']
@@ -503,7 +548,9 @@ class Gen:
             call = '%s %s' % (lname, simvars)
             inner = Cx(inner_env, 'm', None)
             inner.ret = None
-            body = self.block(s.body, inner, lambda cx2: '%s %s rest' % (call, cx2.m))
+            body = self.block(body_stmts, inner, lambda cx2: '%s %s rest' % (call, cx2.m))
+            if live and self.dict_writes != writes0:
+                fail('the loop runs over a dictionary and its body stores into a dictionary', s)
             self.aux.append('def %s (%s : Nat) : Mach → List String → Mach × Option PyErr\n  | m, [] => (m, none)\n'
                             '  | m, %s :: rest =>\n%s\n' % (lname, simvars, var, indent(body, 2)))
             m2 = self.fresh('m')
